@@ -195,6 +195,13 @@ def compare_streams(cases_path, impl_path, model_path, limit=200):
     return compared, unmod, mism, nmism
 
 
+def case_example(m):
+    c = m['case']
+    if 'q' in c:
+        return {'query': bytes.fromhex(c['q']).decode('utf8', 'replace'), 'query_hex': c['q'], 'data': c.get('d'), 'impl': m['impl'], 'model': m['model']}
+    return {'case': {k: c[k] for k in c if k != 's'}, 'schema_tree': c.get('s'), 'impl': m['impl'], 'model': m['model']}
+
+
 def group_violations(viol):
     groups = {}
     for v in viol:
@@ -363,6 +370,10 @@ def parse_runner(prop, cfg, tier, seed, wdir, mpv, cov, violations, broken, note
     return eval_runner(prop, cfg, tier, seed, wdir, mpv, cov, violations, broken, notes, cmd='parse', mode='parse')
 
 
+def cue_runner(prop, cfg, tier, seed, wdir, mpv, cov, violations, broken, notes):
+    return eval_runner(prop, cfg, tier, seed, wdir, mpv, cov, violations, broken, notes, cmd='cue', mode='cue')
+
+
 def ana_runner(prop, cfg, tier, seed, wdir, mpv, cov, violations, broken, notes):
     return eval_runner(prop, cfg, tier, seed, wdir, mpv, cov, violations, broken, notes, cmd='ana', mode='ana')
 
@@ -403,10 +414,10 @@ def eval_runner(prop, cfg, tier, seed, wdir, mpv, cov, violations, broken, notes
     indom = [m for m in mism if m['in_domain']]
     if indom:
         broken.append({'what': 'correspondence: the Lean model and the implementation disagree on %d in-domain case(s) (of %d disagreements)' % (len(indom), nmism),
-                       'examples': [{'query': bytes.fromhex(m['case']['q']).decode('utf8', 'replace'), 'query_hex': m['case']['q'], 'data': m['case'].get('d'), 'impl': m['impl'], 'model': m['model']} for m in indom[:5]]})
+                       'examples': [case_example(m) for m in indom[:5]]})
     elif mism:
         notes.append({'what': 'model/implementation differences outside the property domain (logged, not enforced)', 'count': nmism,
-                      'examples': [{'query': bytes.fromhex(m['case']['q']).decode('utf8', 'replace'), 'impl': m['impl'], 'model': m['model']} for m in mism[:3]]})
+                      'examples': [case_example(m) for m in mism[:3]]})
     if not os.environ.get('VERIF_KEEP'):
         for f in ('cases.jsonl', 'model.txt', 'impl.txt'):
             try:
